@@ -1,4 +1,5 @@
 import Driver.Util
+import RadicaleModel.UrlSplit
 import RadicaleModel.Quote
 import RadicaleModel.Shell
 open Lean Radicale
@@ -22,6 +23,9 @@ def handleQuote (j : Json) : Json :=
   | "reqline" => obj [("r", jStr (Quote.gatePath (Quote.decodeRequestLine s)))]
   | "multiget" => obj [("r", jStr (Quote.decodeMultigetHref s))]
   | "dest" => obj [("r", jStr (Quote.decodeDestination (getBool j "decodes") s))]
+  | "urlpath" => obj [("split", jStr (UrlSplit.urlsplitPath s)), ("parse", jStr (UrlSplit.urlparsePath s))]
+  | "desturl" => obj [("r", jStr (UrlSplit.decodeDestinationUrl s))]
+  | "multigeturl" => obj [("r", jStr (UrlSplit.decodeMultigetUrl s))]
   | "safe" => obj [("comp", Json.bool (Path.safeComp s)), ("fs", Json.bool (Path.safeFsComp s))]
   | "tofs" => match Path.toFilesystem s with
       | .ok parts => obj [("ok", Json.arr (parts.map jStr).toArray)]
